@@ -72,6 +72,16 @@ HOSTILE_INNER = [
     "select * from t limit 5 offset 2",
     "select ?, ? from t where a = ?",
     "select - 1, -1, - -1 from t",
+    # parentheses at both ends that do not pair up with each other; fully wrapped queries
+    "(select a from t) union all (select b from u)",
+    "(select 1)", "((select 1))", "(select a from t where b in (1, 2)) union (select 3)",
+    "(select a from t) order by (a)", "select (a), (b) from t where (c)",
+    # string literals that span lines, with the same margin as the statement's own continuation lines
+    "select a,\n    'first line\n    second line' as s\n    from t",
+    "\n    select *\n    from t\n    where note = 'x\n    y\n      z'\n",
+    "select *\n\tfrom t\n\twhere s = 'tab\n\tinside'",
+    "  select 'a\n  b',\n  \"c\n  d\"\n  from t",
+    "select *\r\n  from t\r\n  where a = 'x\r\n  y'",
 ]
 
 
